@@ -4,7 +4,7 @@ this file and registry.py by bin/gen_manifest.py."""
 CLAIMS = {}
 NOT_CLAIMED = {}
 # properties whose checks exist but are still being finished / triaged: not claimed until they pass on the tree
-HOLD = {"C04", "C05", "C13", "C18", "C07", "C08", "C20", "C10"}
+HOLD = {"C04", "C05", "C13", "C18", "C20", "C10"}
 
 SCHED_NOTE = ("Bounded exhaustive: all schedules within the stated preemption / timer / spurious-CAS budgets for the stated small configurations "
               "(thread counts, queue sizes); interleaving is sequentially consistent (weaker memory orders are not explored; a free-running ThreadSanitizer "
